@@ -2,7 +2,7 @@
    Only statements, each closed by [exact] of a lemma proved elsewhere, with Print Assumptions. *)
 From Coq Require Import List NArith Bool.
 Import ListNotations.
-Require Import Parser SBase SFetch Pipe Grammar C02base C02tail C02run.
+Require Import Parser SBase SFetch Pipe Grammar C02base C02tail C02run C02anchors C02anchorsRun.
 
 (* One step of the pull parser, from any state satisfying the stack/grammar invariant and for any
    remaining token stream: it never panics, the event it yields is accepted by the grammar acceptor,
@@ -20,3 +20,16 @@ Theorem C02_run : forall toks keep se fuel,
   /\ end_ok se (snd r).
 Proof. exact parser_run_wellformed. Qed.
 Print Assumptions C02_run.
+
+(* Anchor ids: in every run, for every token list, the ids carried by scalar / sequence-start / mapping-start
+   events are 1, 2, 3, ... in order of appearance (so positive and never shared by two nodes), and every alias
+   carries an id that was handed out earlier in the stream ([arun] is the executable check of exactly that). *)
+Theorem C02_anchor_ids : forall toks keep se fuel,
+  exists n, arun 0 (evs_of (fst (parse_all fuel (init_parser toks keep) se []))) = Some n.
+Proof. exact parser_run_anchors. Qed.
+Print Assumptions C02_anchor_ids.
+
+Example C02_arun_rejects_reuse : arun 0 [EScalar [] Plain 1 None; EScalar [] Plain 1 None] = None.
+Proof. reflexivity. Qed.
+Example C02_arun_rejects_forward_alias : arun 0 [EAlias 1; EScalar [] Plain 1 None] = None.
+Proof. reflexivity. Qed.
